@@ -2520,7 +2520,10 @@ fn main() {
         reg.add(s);
 
         // FixedCapacityMemoryPool: block stride (max_block_size) that is no multiple of the alignment
-        reg.add(fixedcap("FixedCapacityMemoryPool[max_block=100,3 blocks]", fc_odd100, &[1, 96, 97, 100, 101], 4, 5));
+        // (a pool that refuses this configuration — the repair of the misaligned-stride defect does — has nothing to explore)
+        if FixedCapacityMemoryPool::new(fc_odd100()).is_ok() {
+            reg.add(fixedcap("FixedCapacityMemoryPool[max_block=100,3 blocks]", fc_odd100, &[1, 96, 97, 100, 101], 4, 5));
+        }
 
         // MemoryPool / MemoryMappedAllocator: clear() / clear_cache() in the middle of a history
         let mut s = mempool("MemoryPool[small,max_chunks=2]/clear", mp_small2, 5, 6);
